@@ -16,12 +16,32 @@ import glob
 import json
 import os
 import re
+import struct
 
 from vlib import common as C
 
 EXPECTED_G_QUICK = 24
 N_BIN, N_UN = 17, 2
 FLOAT_ARITH = ("+", "-", "*", "/", "**")
+
+
+def decode(r):
+    """a result on the wire, made readable for replay files"""
+    if not isinstance(r, dict):
+        return r
+    if r.get("k") == "int":
+        x = sum(v << (8 * i) for i, v in enumerate(r["l"]))
+        return {"int": x - (1 << 64) if x >= 1 << 63 else x}
+    if r.get("k") == "float":
+        x = sum(v << (8 * i) for i, v in enumerate(r["l"]))
+        return {"float_bits": "0x%016x" % x, "float": repr(struct.unpack("<d", struct.pack("<Q", x))[0])}
+    if r.get("k") == "bool":
+        return {"bool": r["v"]}
+    if r.get("k") == "err":
+        return {"error": r["e"]}
+    if "r" in r and "cell" in r:
+        return {"value": decode(r["r"]), "cell_afterwards": decode(r["cell"])}
+    return r
 
 
 def case_key(r):
@@ -246,8 +266,12 @@ def run(tier):
             r = recs[m["i"] - 1]
             trace_mismatches += 1
             sig = {"kind": "trace", "t": r["t"], "op": r["op"], "a": r.get("as"), "b": r.get("bs")}
-            chk.violation(sig, {"direction": "impl->spec (Trace_Arith recomputed the record)", "record": r,
-                                "specification_expects": m["expected"]})
+            chk.violation(sig, {"direction": "impl->spec (Trace_Arith recomputed the record)",
+                                "case": {"t": r["t"], "op": r["op"], "a": r.get("as"), "b": r.get("bs")},
+                                "specification_expects": decode(m["expected"]),
+                                "observed": [{"form": x["f"], "got": decode(x["r"])} for x in r["rs"]],
+                                "observed_cells": [{"form": x["f"], "got": decode(x["r"])} for x in r["cells"]],
+                                "record": r})
         if first_trace is None:
             first_trace = path
         if thorough and c == chunks - 1:
